@@ -368,6 +368,7 @@ class Interp:
         return self.ast_cache[relpath]
 
     def new_path(self, ctx):
+        self.csv_written = []
         self.modules = {}
         self.ctx = ctx
         del ops.POW_TERMS[:]
@@ -954,7 +955,7 @@ class Interp:
                 return list(v.entries.keys())
             raise Unsupported(f"iteration over open dictionary {v.name}")
         if isinstance(v, GenVal):
-            return v.items
+            return self.iterate(v.items, allow_symbolic) if not isinstance(v.items, list) else v.items
         if isinstance(v, Arr2):
             return [Arr(len(r), elems=list(r), dtype=v.dtype) for r in v.rows]
         if isinstance(v, (set, frozenset)):
@@ -1081,6 +1082,8 @@ class Interp:
             return str(x)
         if isinstance(x, Fraction):
             return repr(float(x))
+        if isinstance(x, self.PathVal):
+            return x.s
         return f"<{type(x).__name__}>"
 
     def ex_FormattedValue(self, e, env):
